@@ -3,7 +3,7 @@
    Proofs: C16/Lemmas.v (string primitives), C16/Roundtrip.v (reader on the writer's output). *)
 From Coq Require Import List NArith ZArith Permutation.
 Import ListNotations.
-Require Import Base.Wire Base.PyStr C16.Model C16.Lemmas C16.Roundtrip C16.Files C16.Config C16.Nicks.
+Require Import Base.Wire Base.PyStr C16.Model C16.Lemmas C16.Roundtrip C16.Files C16.Config C16.Nicks C16.Bytes.
 
 (* Full statement (refuted on the pinned tree, findings F1/F2/...):
      forall db, read_users (write_users db) = (UState None (sort_users db) (max_id (sort_users db) 0), None)
@@ -232,3 +232,31 @@ Theorem C16_nick_mutators_keep_lists_nonempty :
   /\ nick_lists_nonempty (fst (remove_nick u net nick)) = true.
 Proof. intros. split; [apply add_nick_keeps_nonempty|apply remove_nick_keeps_nonempty]; assumption. Qed.
 Print Assumptions C16_nick_mutators_keep_lists_nonempty.
+
+(* ---------------------------------------------------------------------------------------------
+   Bytes on disk.  The writers encode utf8 (utils.file.AtomicFile, pinned); the readers decode with
+   encoding='utf8' (tables READER_DECODES_UTF8 / IGN_READER_DECODES_UTF8, true since the repair C16.i), so
+   the text every reader theorem above starts from is exactly the text that was written, for every
+   preferred encoding of the locale and every text of Unicode scalar values (no lone surrogates: those
+   cannot be encoded, flush itself raises). *)
+Theorem C16_disk_roundtrip_any_locale :
+  forall locale text, forallb C13.Utf8.scalar text = true ->
+  reread locale text = Ok text /\ reread_ign locale text = Ok text.
+Proof. intros locale text H. split; [apply reread_ok|apply reread_ign_ok]; exact H. Qed.
+Print Assumptions C16_disk_roundtrip_any_locale.
+
+(* what open() without an encoding did before the repair: under a latin-1 locale "é" reloads as "Ã©",
+   under an ASCII locale the file cannot be read at all *)
+Theorem C16_locale_decoding_refuted :
+  forallb C13.Utf8.scalar s_eacute = true /\
+  (do b <- file_bytes s_eacute; decode_as (reader_enc false ELatin1) b) = Ok [195; 169] /\
+  (do b <- file_bytes s_eacute; decode_as (reader_enc false EAscii) b) = Raise UnicodeError.
+Proof. exact locale_decoding_refuted. Qed.
+Print Assumptions C16_locale_decoding_refuted.
+
+Theorem C16_users_disk_roundtrip_on_domain :
+  forall locale db, users_dom db = true -> forallb C13.Utf8.scalar (write_users db) = true ->
+  exists t, reread locale (write_users db) = Ok t /\
+            read_users t = (UState None (sort_users db) (max_id (sort_users db) 0%Z), None).
+Proof. exact users_disk_roundtrip. Qed.
+Print Assumptions C16_users_disk_roundtrip_on_domain.
